@@ -93,6 +93,18 @@ STRENGTHENED |= {"C02g", "C06f", "C07f", "C08f", "C08g", "C09f", "C09g", "C10g",
 CAUGHT.update({"C12f": "C10 quick (`aliasing:config-edited-after-build`, after the strengthening noted)"})
 CAUGHT.update({"C10e": "C07 quick (as a false SER) and C10 quick (after the strengthening noted)",
                "C12e": "C04 quick and C12 quick (after the strengthening noted)"})
+STRENGTHENED |= {"C06m", "C07m", "C08m", "C11l", "C11m", "C12l", "C13l", "C14l", "C14m", "C15l", "C15m", "C16l", "C17m", "C18m"}
+STRENGTHENED |= {"C01n", "C01o", "C04n", "C04o", "C05n", "C05o", "C06o", "C08n", "C08o", "C09n", "C10n", "C11n", "C11o", "C12o", "C13n", "C13o", "C15o",
+                 "C16n", "C16o", "C17n", "C17o"}
+CAUGHT.update({"C03o": "NOT DECIDED: runs of one Pipeline object overlapping in time are outside C03's quantifier (DESIGN 9.39)",
+               "C02p": "C02 quick and C01 quick (environment probe)"})
+TRY_LOGS = ["/var/tmp/runlogs/try10a.log", "/var/tmp/runlogs/try10b.log", "/var/tmp/runlogs/try10c.log"]
+for _lf in TRY_LOGS:
+    if os.path.exists(_lf):
+        for _l in open(_lf):
+            _m = re.match(r"(C\d\d[pq]) CAUGHT by (C\d\d):\s+witness: (.*)", _l)
+            if _m and _m.group(1) not in CAUGHT:
+                CAUGHT[_m.group(1)] = f"{_m.group(2)} quick (`{_m.group(3).strip()[:80]}`)"
 for pid in sorted(os.listdir(os.path.join(HERE, "seeded"))):
     d = os.path.join(HERE, "seeded", pid)
     vf = os.path.join(d, "verify.json")
@@ -102,7 +114,7 @@ for pid in sorted(os.listdir(os.path.join(HERE, "seeded"))):
     meta = {
         "property": pid[:3],
         "check": pid[:3],
-        "round": {"": 1, "b": 2, "c": 3, "d": 4, "e": 4, "f": 5, "g": 5, "h": 6, "i": 6, "j": 7, "k": 7}[pid[3:]],
+        "round": {"": 1, "b": 2, "c": 3, "d": 4, "e": 4, "f": 5, "g": 5, "h": 6, "i": 6, "j": 7, "k": 7, "l": 8, "m": 8, "n": 9, "o": 9, "p": 10, "q": 10}[pid[3:]],
         "origin": "fresh sub-agent given only the property text and a scratch worktree" + (" (plus the note that registry growth is already known)" if pid == "C18" else ""),
         "summary": first[:300],
         "needs_to_manifest": NEEDS.get(pid) or needs_from_notes(notes),
